@@ -42,6 +42,9 @@ func (m *Mutex) Lock() {
 		return
 	}
 	s.Point("Mutex.Lock", func() bool { return !m.held })
+	if s.Aborted() {
+		return
+	}
 	m.held = true
 }
 
@@ -52,6 +55,9 @@ func (m *Mutex) TryLock() bool {
 		return m.real.TryLock()
 	}
 	s.Point("Mutex.TryLock", nil)
+	if s.Aborted() {
+		return false
+	}
 	if m.held {
 		return false
 	}
@@ -69,6 +75,9 @@ func (m *Mutex) Unlock() {
 		return
 	}
 	s.Point("Mutex.Unlock", nil)
+	if s.Aborted() {
+		return
+	}
 	if !m.held {
 		panic("xsync: unlock of unlocked mutex")
 	}
@@ -91,6 +100,9 @@ func (m *RWMutex) Lock() {
 		return
 	}
 	s.Point("RWMutex.Lock", func() bool { return !m.writer && m.readers == 0 })
+	if s.Aborted() {
+		return
+	}
 	m.writer = true
 }
 
@@ -103,6 +115,9 @@ func (m *RWMutex) Unlock() {
 		return
 	}
 	s.Point("RWMutex.Unlock", nil)
+	if s.Aborted() {
+		return
+	}
 	if !m.writer {
 		panic("xsync: unlock of unlocked rwmutex")
 	}
@@ -118,6 +133,9 @@ func (m *RWMutex) RLock() {
 		return
 	}
 	s.Point("RWMutex.RLock", func() bool { return !m.writer })
+	if s.Aborted() {
+		return
+	}
 	m.readers++
 }
 
@@ -130,6 +148,9 @@ func (m *RWMutex) RUnlock() {
 		return
 	}
 	s.Point("RWMutex.RUnlock", nil)
+	if s.Aborted() {
+		return
+	}
 	if m.readers <= 0 {
 		panic("xsync: runlock of unlocked rwmutex")
 	}
@@ -143,6 +164,9 @@ func (m *RWMutex) TryLock() bool {
 		return m.real.TryLock()
 	}
 	s.Point("RWMutex.TryLock", nil)
+	if s.Aborted() {
+		return false
+	}
 	if m.writer || m.readers > 0 {
 		return false
 	}
@@ -158,6 +182,9 @@ func (m *RWMutex) TryRLock() bool {
 		return m.real.TryRLock()
 	}
 	s.Point("RWMutex.TryRLock", nil)
+	if s.Aborted() {
+		return false
+	}
 	if m.writer {
 		return false
 	}
@@ -211,6 +238,9 @@ func (c *Cond) Wait() {
 	c.waiters = append(c.waiters, w)
 	c.L.Unlock()
 	s.Point("Cond.Wait", func() bool { return w.signalled })
+	if s.Aborted() {
+		return
+	}
 	c.L.Lock()
 }
 
@@ -223,6 +253,9 @@ func (c *Cond) Signal() {
 		return
 	}
 	s.Point("Cond.Signal", nil)
+	if s.Aborted() {
+		return
+	}
 	if len(c.waiters) > 0 {
 		c.waiters[0].signalled = true
 		c.waiters = c.waiters[1:]
@@ -238,6 +271,9 @@ func (c *Cond) Broadcast() {
 		return
 	}
 	s.Point("Cond.Broadcast", nil)
+	if s.Aborted() {
+		return
+	}
 	for _, w := range c.waiters {
 		w.signalled = true
 	}
@@ -262,6 +298,9 @@ func (wg *WaitGroup) Add(delta int) {
 		return
 	}
 	s.Point("WaitGroup.Add", nil)
+	if s.Aborted() {
+		return
+	}
 	wg.n += delta
 	if wg.n < 0 {
 		panic("xsync: negative WaitGroup counter")
@@ -280,6 +319,9 @@ func (wg *WaitGroup) Wait() {
 		return
 	}
 	s.Point("WaitGroup.Wait", func() bool { return wg.n == 0 })
+	if s.Aborted() {
+		return
+	}
 }
 
 // Once is a modelled sync.Once.
@@ -298,6 +340,9 @@ func (o *Once) Do(f func()) {
 		return
 	}
 	s.Point("Once.Do", func() bool { return !o.running })
+	if s.Aborted() {
+		return
+	}
 	if o.done {
 		return
 	}
